@@ -1120,8 +1120,8 @@ static int ec_at(char *loc, char *cmd, char *arg, char *txt)
 	int lnmode;
 	int ret;
 	char *buf = reg_get(REG(arg), &lnmode);
-	if (!buf || (loc[0] && ex_region(loc, &beg, &end)))
-		return 1;
+	if (!buf || (loc[0] && (ex_region(loc, &beg, &end) || end == 0)))
+		return 1;	/* (0@r: there is no line 0 to make current) */
 	if (loc[0])
 		xrow = beg;
 	if (cmd[0] == 'r' && cmd[1] == 'a') {
